@@ -269,6 +269,10 @@ def rule_gpi_retire(ctx, rid, reason):
             if not lp:
                 ctx.bad(rid, F, "batch_retire frees outside the element loop", fr, sig="gpi-batch-loop")
                 continue
+            ee = _early_exits(F, lp)
+            ctx.check(not ee, rid, F, "batch_retire leaves its element loop only through the loop's own range / chain test", fr,
+                      detail="the loop body has an exit of its own (break / return in block(s) %s): the elements after that point are never freed. %s" % (ee, reason),
+                      sig="gpi-batch-whole-range")
             for p in PathSim(F, bound=256, start=lp[0], region=set(lp[1])).run():
                 if path_end(p) == ("back", lp[0]):
                     k = len(path_calls(p, FREE))
@@ -277,6 +281,20 @@ def rule_gpi_retire(ctx, rid, reason):
                     ctx.check(k == 1 or (k == 0 and skipped), rid, F, "batch_retire frees each chain element exactly once", fr,
                               detail="%d free() in one iteration. %s" % (k, reason), sig="gpi-batch-once")
     return n
+
+
+def _early_exits(F, lp):
+    """blocks of the loop body (other than the header) with an edge that leaves the loop: break / return inside the element loop"""
+    head, body = lp[0], set(lp[1]) | {lp[0]}
+    out = []
+    for b in body:
+        if b == head:
+            continue
+        for s2 in F.blocks[b].real_succ():
+            if s2 not in body:
+                out.append(b)
+    return out
+
 
 
 def rule_retire_push(ctx, rid, reason):
@@ -311,6 +329,10 @@ def rule_retire_push(ctx, rid, reason):
             if not lp:
                 ctx.bad(rid, F, "batch_retire pushes outside its element loop", pbs[0], sig="batch-loop")
                 continue
+            ee = _early_exits(F, lp)
+            ctx.check(not ee, rid, F, "batch_retire leaves its element loop only through the loop's own range / chain test", pbs[0],
+                      detail="the loop body has an exit of its own (break / return in block(s) %s): the elements after that point are never handed over. %s" % (ee, reason),
+                      sig="batch-whole-range")
             for p in PathSim(F, bound=256, start=lp[0], region=set(lp[1])).run():
                 if path_end(p) == ("back", lp[0]):
                     n += 1
